@@ -54,7 +54,9 @@ class Prop(PropBase):
         quick = tier == "quick"
         ufs = self.ufuncs
         arr1 = [["s"]]
-        arr2 = [["s", "a"], ["a", "s"], ["s", "k"], ["k", "s"], ["s", "s"], ["s", "q"], ["q", "s"], ["s", "m"], ["m", "s"]]
+        arr2 = [["s", "a"], ["a", "s"], ["s", "k"], ["k", "s"], ["s", "s"], ["s", "q"], ["q", "s"], ["s", "m"], ["m", "s"],
+                # NumPy scalars of several types (bool_, float32, int8, complex64), 0-d arrays, Python bool/float/complex, lists
+                ["s", "n"], ["n", "s"], ["s", "n"], ["n", "s"]]
         outs = ["none", "none", "none", "sig", "sigtuple", "ndarray", "inplace", "partial"]
         reps = 1 if quick else 12
         for _ in range(reps):
@@ -67,7 +69,7 @@ class Prop(PropBase):
                     dask = rng.random() < 0.15
                     if dask:      # Dask refuses NumPy out= targets and defers unit errors to compute time (C09)
                         out = "none"
-                        if "q" in arrange:
+                        if "q" in arrange or "n" in arrange:
                             arrange = ["s", "a"]
                     yield {"op": "call", "ufunc": name, "method": "__call__", "cls": cls, "arr": arrange, "out": out,
                            "dtype": rng.choice(["f8", "f4", "i8"] if REQ[cls] is None else
@@ -196,6 +198,11 @@ class Prop(PropBase):
                 desc.append("o")
             elif a == "k":
                 ops.append(2)
+                desc.append("o")
+            elif a == "n":
+                pool = [np.True_, np.False_, np.float32(2), np.int8(3), np.uint16(2), np.complex64(2), np.array(2.0), np.array(True),
+                        True, 2.5, np.float64(0.5), np.int64(2), np.longdouble(2)]
+                ops.append(pool[(len(case["ufunc"]) + len(case["cls"]) + int(case.get("where", False)) + len(desc)) % len(pool)])
                 desc.append("o")
             elif a == "q":
                 qk = case.get("q", "m")
